@@ -125,6 +125,14 @@ def generate(seed, tier="quick"):
             for ln in lines:
                 t["events"].append({"t": "stmt", "text": ln})
             nested = True
+    lrng = sub(seed, "leave")
+    for f in prog["files"]:
+        for t in f["tests"]:
+            if not t.get("param") and not t.get("args") and any(e.get("t") == "cmp" for e in t["events"]) and lrng.random() < 0.12:
+                # the test leaves its body through an imperative skip / xfail AFTER its comparisons: what the comparisons counted still decides
+                how = lrng.choice(["skip", "xfail"])
+                t["events"].append({"t": "stmt", "text": f"import pytest; pytest.{how}('the rest of this test does not apply here')"})
+                t["leaves"] = how
     xrng = sub(seed, "xfail")
     for f in prog["files"]:
         for t in f["tests"]:
